@@ -57,6 +57,25 @@ func runC17(a *A) {
 					gsKey = lk.Index
 				}
 			}
+			// or the group is looked up (and created) by a helper method that receives the key
+			if c, ok := in.(*ssa.Call); ok && gsKey == nil {
+				if h := c.Call.StaticCallee(); h != nil && h.Blocks != nil && h.Pkg == fn.Pkg {
+					allInstrs(h, func(x ssa.Instruction) {
+						lk, ok := x.(*ssa.Lookup)
+						if !ok {
+							return
+						}
+						if t := TermOf(lk.X, nil); t.Kind != "field" || t.Field != groups {
+							return
+						}
+						for i, prm := range h.Params {
+							if lk.Index == ssa.Value(prm) && i < len(c.Call.Args) {
+								gsKey = c.Call.Args[i]
+							}
+						}
+					})
+				}
+			}
 		})
 		for _, d := range callsTo(fn, deliver) {
 			a.Check(guardedByCall(d.Block(), func(f *ssa.Function) bool { return f == sf }, true), fname(fn)+"#deliver-only-when-fired", d.Pos(),
